@@ -143,12 +143,12 @@ def _find_code_regex(s, pattern, start=0, end=None):
     return res
 
 
-def find_impl_block(s, header):
+def find_impl_block(s, header, all_matches=False):
     """Return (body_open_idx, body_close_idx) of the impl/trait/mod block whose header text
     (whitespace-normalised) starts with `header` and is directly followed by `{` or ` where`.
     header '-' means whole file."""
     if header in ('-', '', None):
-        return -1, len(s)
+        return [(-1, len(s))] if all_matches else (-1, len(s))
     want = ' '.join(header.split())
     kw = want.split(' ', 1)[0]
     # the keyword may carry generics directly (impl<T> ...)
@@ -176,6 +176,8 @@ def find_impl_block(s, header):
                 cands.append((brace, match_brace(s, brace)))
     if not cands:
         raise AnchorError("block `%s` not found" % header)
+    if all_matches:
+        return cands
     if len(cands) > 1:
         raise AnchorError("block `%s` ambiguous (%d matches)" % (header, len(cands)))
     return cands[0]
@@ -218,7 +220,19 @@ def _item_start(s, kw_idx, lo):
 def extract_item(src, block_header, kind, name):
     """Extract an item. kind in {fn, struct, enum, const, type, static, impl, trait}.
     Returns dict(text, start, end, line, sig_end (index in text of body '{' for fn))."""
-    lo, hi = find_impl_block(src, block_header)
+    blocks = find_impl_block(src, block_header, all_matches=True)
+    if len(blocks) > 1 and kind != 'impl':
+        # several blocks with the same header (e.g. two `impl T {}`): the item must be in exactly one
+        hits = []
+        for (blo, bhi) in blocks:
+            try:
+                hits.append(_extract_in(src, blo, bhi, block_header, kind, name))
+            except AnchorError:
+                pass
+        if len(hits) != 1:
+            raise AnchorError("%s `%s`: %d matches across %d `%s` blocks" % (kind, name, len(hits), len(blocks), block_header))
+        return hits[0]
+    lo, hi = blocks[0]
     if kind == 'impl':
         b0, b1 = find_impl_block(src, name)
         st = _item_start(src, src.rfind('\n', 0, b0) + 1 + len(src[src.rfind('\n', 0, b0) + 1:b0]) - len(src[src.rfind('\n', 0, b0) + 1:b0].lstrip()), -1)
@@ -226,6 +240,10 @@ def extract_item(src, block_header, kind, name):
         ms = [m for m in _find_code_regex(src, r'\bimpl\b', 0, b0)]
         st = ms[-1].start()
         return dict(text=src[st:b1 + 1], start=st, end=b1 + 1, line=line_of(src, st))
+    return _extract_in(src, lo, hi, block_header, kind, name)
+
+
+def _extract_in(src, lo, hi, block_header, kind, name):
     pat = {
         'fn': r'\bfn\s+%s\b' % re.escape(name),
         'struct': r'\bstruct\s+%s\b' % re.escape(name),
